@@ -170,7 +170,7 @@ func TestVerif_C17(t *testing.T) { //nolint:cyclop
 						success = true
 					}
 				}
-				w.life = nil
+				_ = w.takeLife()
 				col.Add("e2e", "e2e", success, fmt.Sprintf("KE2E %s %d %s %s %s", verifsim.CoqBool(rest), n.UnixNano(),
 					verifsim.CoqBytes([]byte(username)), verifsim.CoqBool(pwCorrect), verifsim.CoqBool(success)))
 				// release it again so that the 5-tuple is free for the next round
